@@ -441,31 +441,57 @@ def q_obs(o):
 # observing one history
 # ----------------------------------------------------------------------------------------
 OPS = [('lt', lambda a, b: a < b), ('eq', lambda a, b: a == b), ('gt', lambda a, b: a > b),
-       ('le', lambda a, b: a <= b), ('ge', lambda a, b: a >= b)]
+       ('le', lambda a, b: a <= b), ('ge', lambda a, b: a >= b), ('dominates', lambda a, b: a.dominates(b))]
 
 
 def fresh_fitness(f):
-    """a fitness object built by the class constructor from the values of f (not loaded from JSON)"""
+    """a fitness object built by the public constructor from raw (unweighted) values - not loaded from JSON and not
+    through the wvalues= path of the constructor (which divides by the weights)"""
     if isinstance(f, SingleObjFitness):
         return SingleObjFitness(*[v for v in f.values])
     if isinstance(f, MultiObjFitness):
-        return MultiObjFitness(wvalues=tuple(f.wvalues), weights=tuple(f.weights)) if len(f.wvalues) else MultiObjFitness()
+        w = tuple(f.weights)
+        if not len(f.wvalues):
+            g = MultiObjFitness(values=tuple(0.0 for _ in w), weights=w) if len(w) else MultiObjFitness()
+            del g.values
+            return g
+        raw = tuple((wv / wt) if wt != 0 else 0.0 for wv, wt in zip(f.wvalues, w))     # dyadic grid: exact
+        return MultiObjFitness(values=raw, weights=w)
     return None
 
 
-def fitness_check(loaded_objs, limit=8):
-    """loaded fitness values against freshly built ones: <, ==, > (and <=, >=) must not raise and
-    must answer what two fresh objects answer.  -> (ok, detail)"""
-    seen, sample = set(), []
+def fitness_check(loaded_objs, original_objs=None, limit=8):
+    """loaded fitness values against freshly built ones (built by the constructors from the values of the fitness
+    objects of the history that was saved): <, ==, >, <=, >=, dominates must not raise and must answer what two fresh
+    objects answer - in particular a loaded fitness equals the fresh one with the saved values -, hashes agree.
+    -> (ok, detail)"""
+    orig = {}
+    for o in (original_objs if original_objs is not None else loaded_objs):
+        orig.setdefault(str(o.uid), o.fitness)
+    seen, sample, fresh = set(), [], []
     for o in loaded_objs:
         k = fit_key_mem(o.fitness)
-        if k not in seen and k[0] in ('S', 'M'):
+        src = orig.get(str(o.uid))
+        if src is None or type(src) is not type(o.fitness):
+            continue
+        k = (k, fit_key_mem(src))
+        if k not in seen and k[0][0] in ('S', 'M'):
             seen.add(k)
             sample.append(o.fitness)
+            fresh.append(fresh_fitness(src))
         if len(sample) >= limit:
             break
-    fresh = [fresh_fitness(f) for f in sample]
     for i, lf in enumerate(sample):
+        try:
+            expected_hash = hash(fresh[i])
+        except Exception:
+            expected_hash = None
+        if expected_hash is not None:
+            try:
+                if hash(lf) != expected_hash:
+                    return False, 'hash of loaded %r differs from the hash of fresh %r' % (lf, fresh[i])
+            except Exception as ex:
+                return False, 'hash of loaded %r raises %s: %s' % (lf, type(ex).__name__, ex)
         for j, ff in enumerate(fresh):
             if type(lf) is not type(ff):
                 continue
@@ -521,7 +547,7 @@ def observe(history, tok=None, pre_text=None, legacy=False):
         o['json2'] = o['json']
         o['resave_raised'] = '%s: %s' % (type(ex).__name__, ex)
     o['text_equal'] = (text == text2)
-    o['fitness_ok'], o['fitness_detail'] = fitness_check(o['loaded']['_objects'])
+    o['fitness_ok'], o['fitness_detail'] = fitness_check(o['loaded']['_objects'], o['mem']['_objects'])
     o['text'] = text
     o['_loaded_history'] = loaded
     return o
@@ -552,11 +578,14 @@ def dump_case(ind, path, tok=None):
     mem = ind_record(ind, tok, lambda p: ref[id(p)])
     with open(path) as f:
         file_rec = parse_eind(json.load(f), tok)
-    loaded = Individual.load(path)
+    try:
+        loaded = Individual.load(path)
+    except Exception as ex:
+        raise ImplRaised('Individual.load of the dump raises %s: %s' % (type(ex).__name__, ex))
     if not isinstance(loaded, Individual):
         raise ShapeError('Individual.load returned %r' % type(loaded))
     lrec = ind_record(loaded, tok, lambda p: 0)
-    ok_fit, _ = fitness_check([loaded], limit=1)
+    ok_fit, _ = fitness_check([loaded], [ind], limit=1)
     return {'heap': stubs + [mem], 'ref': len(stubs), 'file': file_rec, 'loaded': lrec, 'fitness_ok': ok_fit}
 
 
@@ -582,6 +611,9 @@ def collect_dumps(history, directory, out, desc, limit):
             d = dump_case(ind, path)
         except ShapeError as ex:
             out.append({'shape': str(ex), 'desc': desc})
+            continue
+        except ImplRaised as ex:
+            out.append({'raised': str(ex), 'desc': desc, 'uid': str(ind.uid), 'fitness': repr(ind.fitness)})
             continue
         d['desc'] = '%s gen %d' % (desc, gi)
         out.append(d)
@@ -630,13 +662,24 @@ def mk_graph(rng):
     return OptGraph()
 
 
-def mk_fitness(rng, multi):
+# weight vectors of multi-objective fitness: default, negative, fractional, ZERO (a metric that is logged but
+# switched off), mixed
+WEIGHT_SETS = [(1.0, 1.0), (1.0, -1.0), (-1.0, -1.0), (0.5, -2.0), (-1.0, 0.0, 0.5), (0.0, 1.0), (0.0, 0.0), (-0.25, 4.0, 0.0)]
+
+
+def mk_fitness(rng, multi, weights=None, values=None, reset=False):
     r = rng.random()
     if multi:
-        if r < 0.15:
+        weights = tuple(weights) if weights is not None else (1.0, rng.choice([1.0, -1.0]))
+        if values is None and not reset and r < 0.12:
             return MultiObjFitness()
-        n = 2
-        return MultiObjFitness(values=tuple(rng.choice(DY) for _ in range(n)), weights=tuple(rng.choice([1.0, -1.0]) for _ in range(n)))
+        vals = tuple(values) if values is not None else tuple(rng.choice(DY) for _ in weights)
+        f = MultiObjFitness(values=vals, weights=weights)
+        if reset or (values is None and r > 0.9):
+            del f.values          # invalid again, the explicit weights stay
+        return f
+    if values is not None:
+        return SingleObjFitness(*values)
     if r < 0.15:
         return SingleObjFitness()
     if r < 0.5:
@@ -672,6 +715,7 @@ class Synth:
         rc = self.recipe
         rng = random.Random(rc.get('seed', 0))
         multi = bool(rc.get('multi'))
+        weights = rc.get('weights')
         inds = []
         for k, spec in enumerate(rc['inds']):
             po = None
@@ -683,7 +727,8 @@ class Synth:
                 kw['native_generation'] = spec['ng']
             if spec.get('uid') is not None:
                 kw['uid'] = spec['uid']
-            fit = mk_fitness(rng, multi) if spec.get('evaluated', True) else (MultiObjFitness() if multi else SingleObjFitness())
+            fit = mk_fitness(rng, multi, weights, spec.get('values'), bool(spec.get('reset'))) if spec.get('evaluated', True) \
+                else (MultiObjFitness() if multi else SingleObjFitness())
             inds.append(Individual(mk_graph(rng), parent_operator=po, metadata=dict(mk_meta(rng)), fitness=fit, **kw))
         objective = ObjectiveInfo(multi, tuple(rc.get('metric_names', ())))
         h = OptHistory(objective, rc.get('save_dir')) if rc.get('objective', True) else OptHistory()
@@ -745,6 +790,15 @@ def fixed_recipes():
                                                                           '@func:golem.utilities.data_structures/ensure_wrapped_in_sequence', 'plain']}],
                   'multi': True, 'metric_names': ['a', 'b'],
                   'gens': [{'members': [0]}, {'members': [1, 2]}], 'snaps': [[0], [2]]}))
+    R.insert(5, ('multi-objective fitness with explicit weights: negative, zero, fractional; a reset fitness keeping its weights',
+                 {'multi': True, 'metric_names': ['rmse', 'size', 'time'], 'weights': [-1.0, 0.0, 0.5],
+                  'inds': [{'values': [0.25, 3.0, 1.5]}, {'values': [0.5, 4.0, 2.5]}, {'op': 'mutation', 'parents': [0], 'reset': True},
+                           {'op': 'crossover', 'parents': [0, 1], 'values': [0.0, 0.0, -1.0]}],
+                  'gens': [{'members': [0, 1], 'label': 'initial_assumptions'}, {'members': [2, 3, 0]}], 'snaps': [[0], [3, 0]]}))
+    R.insert(6, ('multi-objective fitness with all weights zero and with large fractional weights',
+                 {'multi': True, 'metric_names': ['a', 'b'], 'weights': [0.0, 0.0],
+                  'inds': [{'values': [1.5, -1.0]}, {'op': 'mutation', 'parents': [0], 'values': [2.0, 3.25]}],
+                  'gens': [{'members': [0]}, {'members': [1]}], 'snaps': [[0], [1]]}))
     # individuals recorded nowhere but as parents / in the archive
     R.append(('shared parent with native generation that is in no generation',
               {'inds': [{'ng': 0}, {'op': 'mutation', 'parents': [0]}, {'op': 'mutation', 'parents': [0]}],
@@ -800,7 +854,9 @@ def random_recipe(rng):
             snaps.append([])
         if rng.random() < 0.2:
             snaps[-1].append(rng.randrange(n))   # an archive member taken from anywhere (possibly in no generation)
-    return {'seed': rng.randrange(10 ** 6), 'multi': multi, 'metric_names': (['q', 'c'] if multi else rng.choice([[], ['q']])),
+    weights = list(rng.choice(WEIGHT_SETS)) if multi else None
+    return {'seed': rng.randrange(10 ** 6), 'multi': multi, 'weights': weights,
+            'metric_names': (['m%d' % i for i in range(len(weights))] if multi else rng.choice([[], ['q']])),
             'inds': inds, 'gens': gens, 'snaps': snaps, 'tuning': rng.random() < 0.2}
 
 
@@ -974,6 +1030,8 @@ def evaluate_dumps(ctx, dumps):
             ctx.violate('dumps', d, 'individual of the last generation was not dumped to history_dir/<gen>/<uid>/<uid>.json')
         elif 'shape' in d:
             ctx.disagree('dumps', d, 'dump file has an unexpected shape')
+        elif 'raised' in d:
+            ctx.violate('dumps', d, 'dumped individual does not load back: %s' % d['raised'])
     if not good:
         return
     cases = [q_dump(d) for d in good]
@@ -1244,7 +1302,12 @@ def replay(ctx, payload):
         h = real_history(rc, [], 0)
     else:
         return
-    o = observe(h)
+    try:
+        o = observe(h)
+    except ImplRaised as ex:
+        ctx.count('replay', key=json.dumps(rc, sort_keys=True), nontrivial=True)
+        ctx.violate('replay', {'recipe': rc}, 'replayed history: %s' % ex)
+        return
     if case.get('extend_seed') is not None:
         it = continuation_case(ctx, 'replay', rc, o, case['extend_seed'])
         if it is not None:
